@@ -8,6 +8,9 @@
 import ast, io, os, re, sys
 
 REPO = os.environ.get("VERIF_REPO", "/repo")
+# string length bounds of the harness preconditions: the thorough tier of some properties adds one character (XH_EXTRA=1)
+XH_EXTRA = int(os.environ.get("XH_EXTRA", "0") or 0)
+L1, L2, L3, L4 = 1 + XH_EXTRA, 2 + XH_EXTRA, 3 + XH_EXTRA, 4 + XH_EXTRA
 
 # ------------------------------------------------------------------ CrossHair engine defect work-around
 try:
